@@ -1,1 +1,251 @@
-fn main() {}
+//! Harness for C13 (region values).  Runs programs of reads and writes on the real `region_cached` / `region_local`
+//! crates over fake hardware (many_cpus test-util) with 1..8 memory regions, under the deterministic scheduler through
+//! the H6 yield points, and records an ndjson trace for TLC (Trace_Region) to judge.
+//!
+//!   h_region run <stimuli.ndjson> <trace.ndjson> <start-index>
+//!
+//! Stimulus: {"kind":"cached"|"local","id":..,"nr":N,"pin":[bool..],"progs":[[["w",g]|["r",g],..],..],
+//!            "script":[[task,"op"],..]? , "seed":n?, "pct":n?}
+//! A pinned task pins itself to its region before it obtains its instance (the instance then holds the regional state);
+//! an unpinned task obtains its instance first and is moved by the harness to the region each operation names.
+//! Values are tags: 1000 * (task + 1) + sequence number of the task's write; 0 is the initial value.
+use std::time::Duration;
+
+use many_cpus::fake::{HardwareBuilder, ProcessorBuilder};
+use many_cpus::SystemHardware;
+use region_cached::RegionCached;
+use region_local::RegionLocal;
+use vrt::sched::{self, Exec, Outcome, Strategy};
+use vrt::{json, Value};
+
+fn me() -> u32 {
+    sched::task_id().map(|t| t as u32).unwrap_or(99)
+}
+
+fn point_cached(name: &'static str, index: u64) {
+    if index == region_cached::verif::NO_INDEX {
+        sched::point(name);
+    } else {
+        sched::point(&format!("{name}:{index}"));
+    }
+}
+
+fn point_local(name: &'static str, index: u64) {
+    if index == region_local::verif::NO_INDEX {
+        sched::point(name);
+    } else {
+        sched::point(&format!("{name}:{index}"));
+    }
+}
+
+/// The condition is false when first evaluated (the waiter saw the marker in this very step), so the task parks as
+/// blocked with the wait's name as its pending operation; it is resumed only to re-evaluate.
+fn hook_block(name: &'static str, ready: &dyn Fn() -> bool) {
+    sched::block_until(name, || ready());
+}
+
+fn hardware(nr: u32) -> SystemHardware {
+    let mut hb = HardwareBuilder::new();
+    for i in 0..nr {
+        hb = hb.processor(ProcessorBuilder::new().id(i).memory_region(i));
+    }
+    SystemHardware::fake(hb)
+}
+
+fn move_to(hw: &SystemHardware, region: u32) {
+    hw.all_processors().filter(|p| p.id() == region).expect("region exists").pin_current_thread_to();
+}
+
+fn local_init() -> u64 {
+    0
+}
+
+/// What a task needs from either crate.
+trait Cell: Send + 'static {
+    fn read(&self) -> u64;
+    fn write(&self, v: u64);
+}
+impl Cell for RegionCached<u64> {
+    fn read(&self) -> u64 {
+        self.get_cached()
+    }
+    fn write(&self, v: u64) {
+        self.set_global(v);
+    }
+}
+impl Cell for RegionLocal<u64> {
+    fn read(&self) -> u64 {
+        self.get_local()
+    }
+    fn write(&self, v: u64) {
+        self.set_local(v);
+    }
+}
+
+fn run_prog<C: Cell>(hw: SystemHardware, make: impl FnOnce() -> C, pinned: bool, prog: Vec<(String, u32)>) {
+    let t = me();
+    if pinned {
+        if let Some((_, g)) = prog.first() {
+            move_to(&hw, *g);
+        }
+    }
+    let cell = make();
+    let mut nw = 0u64;
+    for (k, g) in prog {
+        if k == "r" {
+            sched::point("op:r");
+            if !pinned {
+                move_to(&hw, g);
+            }
+            sched::emit(json!({"ev":"rb","t":t,"g":g,"pin":pinned}));
+            let v = cell.read();
+            sched::emit(json!({"ev":"re","t":t,"w":v / 1000,"k":v % 1000}));
+        } else {
+            sched::point("op:w");
+            if !pinned {
+                move_to(&hw, g);
+            }
+            nw += 1;
+            sched::emit(json!({"ev":"wb","t":t,"w":t + 1,"k":nw,"g":g,"pin":pinned}));
+            cell.write(1000 * u64::from(t + 1) + nw);
+            sched::emit(json!({"ev":"we","t":t}));
+        }
+    }
+}
+
+fn strategy_of(st: &Value) -> (Strategy, bool) {
+    if let Some(sc) = st.get("script").and_then(Value::as_array) {
+        let v = sc.iter().map(|e| (e[0].as_u64().unwrap() as usize, e[1].as_str().unwrap().to_string())).collect();
+        (Strategy::Script(v), true)
+    } else if st.get("pct").and_then(Value::as_u64).is_some() {
+        (Strategy::Pct { changes: st["pct"].as_u64().unwrap() as usize }, false)
+    } else {
+        (Strategy::Random, false)
+    }
+}
+
+fn outcome_name(o: &Outcome) -> &'static str {
+    match o {
+        Outcome::Completed => "completed",
+        Outcome::Deadlock(_) => "deadlock",
+        Outcome::StepLimit => "steplimit",
+        Outcome::Stuck(_) => "stuck",
+    }
+}
+
+fn run_one(st: &Value, idx: usize, seed: u64) -> (Vec<Value>, bool) {
+    let kind = st["kind"].as_str().unwrap().to_string();
+    let nr = st["nr"].as_u64().unwrap() as u32;
+    let hw = hardware(nr);
+    let progs: Vec<Vec<(String, u32)>> = st["progs"]
+        .as_array()
+        .unwrap()
+        .iter()
+        .map(|p| p.as_array().unwrap().iter().map(|o| (o[0].as_str().unwrap().to_string(), o[1].as_u64().unwrap() as u32)).collect())
+        .collect();
+    let pins: Vec<bool> = st["pin"].as_array().unwrap().iter().map(|b| b.as_bool().unwrap()).collect();
+    let (strategy, scripted) = strategy_of(st);
+    let mut ex = Exec::new(strategy, seed ^ st.get("seed").and_then(Value::as_u64).unwrap_or(0));
+    ex.max_steps = 50_000;
+    ex.step_timeout = Duration::from_secs(10);
+    let mut events = vec![json!({"ev":"reset","mode":kind,"stim":idx,"id":st.get("id").cloned().unwrap_or(json!(""))})];
+    // the probe after the run: the harness thread reads every region once, with nothing else running
+    let probe: Box<dyn Fn(&SystemHardware) -> Vec<Value>>;
+    if kind == "cached" {
+        let first = RegionCached::with_hardware(0u64, hw.clone());
+        for (t, prog) in progs.into_iter().enumerate() {
+            let fam = linked::Object::family(&first);
+            let (h, pinned) = (hw.clone(), pins[t]);
+            ex.spawn(&format!("t{t}"), move || run_prog(h, move || -> RegionCached<u64> { fam.into() }, pinned, prog));
+        }
+        probe = Box::new(move |hw| {
+            let mut v = vec![];
+            for g in 0..nr {
+                move_to(hw, g);
+                v.push(json!({"ev":"rb","t":99,"g":g,"pin":false}));
+                let x = first.get_cached();
+                v.push(json!({"ev":"re","t":99,"w":x / 1000,"k":x % 1000}));
+            }
+            v
+        });
+    } else {
+        let first = RegionLocal::with_hardware(local_init, hw.clone());
+        for (t, prog) in progs.into_iter().enumerate() {
+            let fam = linked::Object::family(&first);
+            let (h, pinned) = (hw.clone(), pins[t]);
+            ex.spawn(&format!("t{t}"), move || run_prog(h, move || -> RegionLocal<u64> { fam.into() }, pinned, prog));
+        }
+        probe = Box::new(move |hw| {
+            let mut v = vec![];
+            for g in 0..nr {
+                move_to(hw, g);
+                v.push(json!({"ev":"rb","t":99,"g":g,"pin":false}));
+                let x = first.get_local();
+                v.push(json!({"ev":"re","t":99,"w":x / 1000,"k":x % 1000}));
+            }
+            v
+        });
+    }
+    let rep = ex.run();
+    let mut drift = rep.drift;
+    for e in rep.log {
+        if e.get("ev").and_then(Value::as_str) == Some("drift") {
+            drift = drift.max(1);
+            continue;
+        }
+        events.push(e);
+    }
+    for (t, p) in rep.panics.iter().enumerate() {
+        if let Some(m) = p {
+            events.push(json!({"ev":"panic","t":t,"msg":m.chars().take(160).collect::<String>()}));
+        }
+    }
+    let completed = matches!(rep.outcome, Outcome::Completed);
+    if completed {
+        match vrt::catch(|| probe(&hw)) {
+            Ok(v) => events.extend(v),
+            Err(m) => events.push(json!({"ev":"panic","t":99,"msg":m})),
+        }
+    } else {
+        std::mem::forget(probe);
+    }
+    let steps: Vec<Value> = rep.steps.iter().map(|s| json!([s.task, s.op])).collect();
+    events.push(json!({"ev":"end","outcome":outcome_name(&rep.outcome),"drift":drift,"scripted":scripted,"nsteps":steps.len(),
+                       "steps": if !completed || drift > 0 { Value::Array(steps) } else { json!([]) }}));
+    (events, !completed)
+}
+
+fn main() {
+    vrt::quiet_panics();
+    let args: Vec<String> = std::env::args().collect();
+    region_cached::verif::install(region_cached::verif::Hooks { point: point_cached, block_until: hook_block });
+    region_local::verif::install(region_local::verif::Hooks { point: point_local, block_until: hook_block });
+    match args.get(1).map(String::as_str) {
+        Some("run") => {
+            use std::io::Write;
+            let stimuli = vrt::read_ndjson(&args[2]);
+            let start: usize = args[4].parse().unwrap();
+            let mut out = std::fs::OpenOptions::new().create(true).append(true).open(&args[3]).unwrap();
+            let seed = vrt::seed_from_env();
+            for (i, st) in stimuli.iter().enumerate().skip(start) {
+                let (evs, tainted) = run_one(st, i, seed.wrapping_add(i as u64));
+                let mut buf = Vec::new();
+                for e in &evs {
+                    serde_json::to_writer(&mut buf, e).unwrap();
+                    buf.push(b'\n');
+                }
+                out.write_all(&buf).unwrap();
+                out.flush().unwrap();
+                if tainted {
+                    println!("RESUME {}", i + 1);
+                    std::process::exit(3);
+                }
+            }
+            println!("DONE {}", stimuli.len());
+        }
+        _ => {
+            eprintln!("usage: h_region run <stimuli.ndjson> <trace.ndjson> <start>");
+            std::process::exit(2);
+        }
+    }
+}
